@@ -20,11 +20,10 @@
 (***************************************************************************)
 EXTENDS Naturals, Integers, Sequences, FiniteSets, TLC
 
-CONSTANTS NThreads,  \* worker threads of the node
+CONSTANTS Threads,   \* identities of the worker threads (rank * 8 + thread for multi-rank runs)
           NLp,       \* LPs 0..NLp-1
           Inf        \* the value logged for SIMTIME_MAX
 
-Threads == 0..(NThreads - 1)
 LpSet == 0..(NLp - 1)
 NoGhost == [s |-> -1, cnt |-> -1, a |-> -1, b |-> -1, blk |-> -1]
 
@@ -47,18 +46,23 @@ VARIABLES
   gvtVals,  \* sequence of GVT values by round
   finiLp,   \* lp -> LP_FINI done
   finiQ,    \* thr -> the thread is tearing down its queue
-  votes,    \* number of termination votes cast
+  votes,    \* GVT round (per-thread count of values received) in which the latest termination vote was cast
   stopped,  \* RootsimStop was called
   exited,   \* thr -> left the main loop
   hand,     \* thr -> message extracted and not yet executed/released (0: none)
   voted,    \* thr -> the thread has cast its termination vote
   maxDecl,  \* thr -> largest timestamp at which one of its LPs ever declared its predicate true
   mustVote, \* thr -> the GVT just handed over obliges the thread to vote now
-  announced \* the termination of this node has been announced (MSG_CTRL_TERMINATION processed)
+  announced,\* the termination of this node has been announced (MSG_CTRL_TERMINATION processed)
+  net,      \* nm -> [kind, t, id, sq, src]: messages handed to MPI and not yet received (multi-rank runs)
+  rx,       \* thr -> the network message just received and not yet inserted (or NoRx)
+  lastNm,   \* thr -> network message of the last send of this thread (to bind it to the sender's buffer)
+  early     \* lp -> set of early remote anti-messages parked at the LP
 
 vars == <<msg, hist, base, ckpt, owner, rb, cpos, cheld, termT, gvtSeen, gvtCnt, gvtVals, finiLp, finiQ,
-          votes, stopped, exited, hand, voted, maxDecl, mustVote, announced>>
+          votes, stopped, exited, hand, voted, maxDecl, mustVote, announced, net, rx, lastNm, early>>
 
+NoRx == [kind |-> "none", t |-> -1, id |-> 0, sq |-> 0, src |-> -1, nm |-> 0]
 NoRb == [on |-> FALSE, lp |-> -1, past |-> 0, restored |-> FALSE, touched |-> {}]
 
 Init ==
@@ -84,14 +88,25 @@ Init ==
   /\ maxDecl = [r \in Threads |-> 0]
   /\ mustVote = [r \in Threads |-> FALSE]
   /\ announced = FALSE
+  /\ net = <<>>
+  /\ rx = [r \in Threads |-> NoRx]
+  /\ lastNm = [r \in Threads |-> [nm |-> 0, kind |-> "none", id |-> 0, sq |-> 0]]
+  /\ early = [p \in LpSet |-> {}]
 
 ----------------------------------------------------------------------------
 (* helpers *)
 Live(m) == m \in DOMAIN msg
 Put(f, k, v) == [x \in (DOMAIN f) \cup {k} |-> IF x = k THEN v ELSE f[x]]
 Drop(f, k) == [x \in (DOMAIN f) \ {k} |-> f[x]]
+Low(f) == f % 4     \* the two flag bits; the rest of the word is the identity of a remote message
 HasAnti(f) == f % 2 = 1
-HasProc(f) == f >= 2   \* 2, 3 and (anti copy extracted after processing) 3 + 2 = 5
+HasProc(f) == f >= 2   \* local messages: 2, 3 and (anti copy extracted after processing) 3 + 2 = 5
+\* messages received from another rank keep their identity in the upper bits of the word
+FromNet(m) == msg[m].nm # 0 /\ ~msg[m].rem
+HasProcM(m, f) == IF FromNet(m) THEN Low(f) >= 2 ELSE HasProc(f)
+
+\* two buffers carry the same remote identity (an event and its anti-message)
+SameRemote(a, b) == msg[a].nm # 0 /\ msg[b].nm # 0 /\ msg[a].sq = msg[b].sq /\ (msg[a].flags - Low(msg[a].flags)) = (msg[b].flags - Low(msg[b].flags))
 
 InboxOf(r) == {m \in DOMAIN msg : msg[m].inq = "inbox" /\ msg[m].q = r}
 HeapOf(r) == {m \in DOMAIN msg : msg[m].inq = "heap" /\ msg[m].q = r}
@@ -114,9 +129,9 @@ Failed(cs) == SelectSeq(cs, LAMBDA c : ~c[1])
 ----------------------------------------------------------------------------
 (* msg_allocator_alloc (src/mm/msg_allocator.c) *)
 Alloc(r, m) ==
-  /\ msg' = Put(msg, m, [lp |-> -1, t |-> -1, ty |-> -1, pid |-> -1, flags |-> 0, inq |-> "new", q |-> r, src |-> -1])
+  /\ msg' = Put(msg, m, [lp |-> -1, t |-> -1, ty |-> -1, pid |-> -1, flags |-> 0, inq |-> "new", q |-> r, src |-> -1, rem |-> FALSE, sq |-> 0, nm |-> 0])
   /\ UNCHANGED <<hist, base, ckpt, owner, rb, cpos, cheld, termT, gvtSeen, gvtCnt, gvtVals, finiLp, finiQ, votes,
-                 stopped, exited, hand, voted, maxDecl, mustVote, announced>>
+                 stopped, exited, hand, voted, maxDecl, mustVote, announced, net, rx, lastNm, early>>
 AllocChecks(r, m) ==
   << <<~Live(m), "C06", "buffer handed out while still live">>,
      \* events re-executed silently must not emit events (ScheduleNewEvent returns before packing)
@@ -127,7 +142,7 @@ LpInit(r, p, m, g, pred) ==
   /\ msg' = [msg EXCEPT ![m] = [@ EXCEPT !.lp = p, !.t = 0, !.ty = 65534, !.flags = 2, !.inq = "none"]]
   /\ hist' = [hist EXCEPT ![p] = Append(@, [k |-> "e", m |-> m, t |-> 0, ty |-> 65534, pid |-> -1, g |-> g, pred |-> pred])]
   /\ owner' = [owner EXCEPT ![p] = r]
-  /\ UNCHANGED <<base, ckpt, rb, cpos, cheld, termT, gvtSeen, gvtCnt, gvtVals, finiLp, finiQ, votes, stopped, exited, hand, voted, maxDecl, mustVote, announced>>
+  /\ UNCHANGED <<base, ckpt, rb, cpos, cheld, termT, gvtSeen, gvtCnt, gvtVals, finiLp, finiQ, votes, stopped, exited, hand, voted, maxDecl, mustVote, announced, net, rx, lastNm, early>>
 LpInitChecks(r, p, m) ==
   << <<Live(m) /\ msg[m].inq = "new", "C06", "LP_INIT uses a buffer that is not fresh">>,
      <<owner[p] = -1, "C14", "LP initialised twice">> >>
@@ -136,10 +151,14 @@ LpInitChecks(r, p, m) ==
    For a fresh message this is also the moment its content becomes defined. *)
 Push(r, m, q, c) ==
   /\ msg' = [msg EXCEPT ![m] = IF @.inq = "new"
-                                THEN [@ EXCEPT !.lp = c.lp, !.t = c.t, !.ty = c.ty, !.pid = c.pid, !.inq = "inbox", !.q = q]
+                                THEN [@ EXCEPT !.lp = c.lp, !.t = c.t, !.ty = c.ty, !.pid = c.pid, !.inq = "inbox", !.q = q,
+                                               \* a message that arrived from another rank carries its identity in the flag word
+                                               !.flags = IF rx[r].kind = "none" THEN @ ELSE (rx[r].id - Low(rx[r].id)) + (IF rx[r].kind = "anti" THEN 1 ELSE 0),
+                                               !.nm = IF rx[r].kind = "none" THEN 0 ELSE rx[r].nm, !.sq = rx[r].sq]
                                 ELSE [@ EXCEPT !.inq = "inbox", !.q = q]]
+  /\ rx' = [rx EXCEPT ![r] = IF msg[m].inq = "new" THEN NoRx ELSE @]
   /\ UNCHANGED <<hist, base, ckpt, owner, rb, cpos, cheld, termT, gvtSeen, gvtCnt, gvtVals, finiLp, finiQ, votes,
-                 stopped, exited, hand, voted, maxDecl, mustVote, announced>>
+                 stopped, exited, hand, voted, maxDecl, mustVote, announced, net, lastNm, early>>
 PushChecks(r, m, q, c) ==
   << <<Live(m), "C06", "freed buffer inserted into a queue">>,
      <<Live(m) => msg[m].inq \in {"new", "none"}, "C06", "message inserted while already queued">>,
@@ -147,14 +166,15 @@ PushChecks(r, m, q, c) ==
        "C06", "content of a re-inserted message changed">>,
      <<owner[c.lp] \in {-1, q}, "C14", "event routed to a thread that does not own the destination LP">>,
      <<~(rb[r].on /\ rb[r].restored), "C05", "event emitted during silent re-execution">>,
-     <<c.t >= gvtSeen[r], "C04", "message created below the GVT known to its sender">> >>
+     <<c.t >= gvtSeen[r], "C04", "message created below the GVT known to its sender">>,
+     <<(Live(m) /\ msg[m].inq = "new" /\ rx[r].kind # "none") => c.t = rx[r].t, "C02", "a message received from another rank carries a different timestamp than the one sent">> >>
 
 (* ScheduleNewEvent (src/lp/process.c:38): the sender records the message in its history *)
 Send(r, p, m) ==
   /\ hist' = [hist EXCEPT ![p] = Append(@, [k |-> "s", m |-> m, t |-> msg[m].t, ty |-> msg[m].ty, pid |-> msg[m].pid, g |-> NoGhost, pred |-> FALSE])]
   /\ msg' = [msg EXCEPT ![m].src = p]
   /\ UNCHANGED <<base, ckpt, owner, rb, cpos, cheld, termT, gvtSeen, gvtCnt, gvtVals, finiLp, finiQ, votes, stopped,
-                 exited, hand, voted, maxDecl, mustVote, announced>>
+                 exited, hand, voted, maxDecl, mustVote, announced, net, rx, lastNm, early>>
 SendChecks(r, p, m) ==
   << <<Live(m), "C06", "sent message is not live">>,
      <<owner[p] \in {-1, r}, "C14", "LP runs on a thread that does not own it">> >>
@@ -163,7 +183,7 @@ SendChecks(r, p, m) ==
 Drain(r, n) ==
   /\ msg' = [m \in DOMAIN msg |-> IF m \in InboxOf(r) THEN [msg[m] EXCEPT !.inq = "heap"] ELSE msg[m]]
   /\ UNCHANGED <<hist, base, ckpt, owner, rb, cpos, cheld, termT, gvtSeen, gvtCnt, gvtVals, finiLp, finiQ, votes,
-                 stopped, exited, hand, voted, maxDecl, mustVote, announced>>
+                 stopped, exited, hand, voted, maxDecl, mustVote, announced, net, rx, lastNm, early>>
 DrainChecks(r, n) ==
   << <<Cardinality(InboxOf(r)) = n, "C15", "buffer swap lost or duplicated an inserted event">> >>
 
@@ -172,7 +192,7 @@ Extract(r, m) ==
   /\ msg' = [msg EXCEPT ![m].inq = "none"]
   /\ hand' = [hand EXCEPT ![r] = m]
   /\ UNCHANGED <<hist, base, ckpt, owner, rb, cpos, cheld, termT, gvtSeen, gvtCnt, gvtVals, finiLp, finiQ, votes,
-                 stopped, exited, voted, maxDecl, mustVote, announced>>
+                 stopped, exited, voted, maxDecl, mustVote, announced, net, rx, lastNm, early>>
 ExtractChecks(r, m) ==
   << <<Live(m), "C06", "freed buffer extracted">>,
      <<Live(m) => m \in HeapOf(r), "C15", "extracted an event that was not transferred to this thread">>,
@@ -185,21 +205,21 @@ ExtractChecks(r, m) ==
 Flag(r, m, old) ==
   /\ msg' = [msg EXCEPT ![m].flags = old + 2]
   /\ UNCHANGED <<hist, base, ckpt, owner, rb, cpos, cheld, termT, gvtSeen, gvtCnt, gvtVals, finiLp, finiQ, votes,
-                 stopped, exited, hand, voted, maxDecl, mustVote, announced>>
+                 stopped, exited, hand, voted, maxDecl, mustVote, announced, net, rx, lastNm, early>>
 FlagChecks(r, m, old) ==
   << <<Live(m), "C06", "flag of a freed buffer updated">>,
      <<Live(m) => m \in HandOf(r), "C06", "flag update on a message not in hand">>,
      \* an event that is (still) marked processed is being delivered a second time
-     <<old \in {0, 1, 3}, "C06", "event delivered while still marked processed, or flag word corrupted">>,
+     <<Live(m) => (IF FromNet(m) THEN Low(old) \in {0, 1} ELSE old \in {0, 1, 3}), "C06", "event delivered while still marked processed, or flag word corrupted">>,
      \* the anti copy of a processed event (3) must be in the history of its LP
-     <<(Live(m) /\ old = 3) => IdxOf(msg[m].lp, "e", m) # {}, "C06", "annihilation of a processed event that is not in history">>,
-     <<(Live(m) /\ old \in {0, 1}) => ~InHistE(m), "C06", "unprocessed event is in a history">> >>
+     <<(Live(m) /\ ~FromNet(m) /\ old = 3) => IdxOf(msg[m].lp, "e", m) # {}, "C06", "annihilation of a processed event that is not in history">>,
+     <<(Live(m) /\ (FromNet(m) \/ old \in {0, 1})) => ~InHistE(m), "C06", "unprocessed event is in a history">> >>
 
 (* do_rollback entry (process.c:202) *)
 RbBegin(r, p, past) ==
   /\ rb' = [rb EXCEPT ![r] = [on |-> TRUE, lp |-> p, past |-> past, restored |-> FALSE, touched |-> {}]]
   /\ UNCHANGED <<msg, hist, base, ckpt, owner, cpos, cheld, termT, gvtSeen, gvtCnt, gvtVals, finiLp, finiQ, votes,
-                 stopped, exited, hand, voted, maxDecl, mustVote, announced>>
+                 stopped, exited, hand, voted, maxDecl, mustVote, announced, net, rx, lastNm, early>>
 RbBeginChecks(r, p, past) ==
   << <<owner[p] = r, "C14", "rollback of an LP by a thread that does not own it">>,
      <<past <= Len(hist[p]), "C05", "rollback target beyond the history">>,
@@ -213,7 +233,7 @@ AntiLocal(r, m, old) ==
   /\ msg' = [msg EXCEPT ![m].flags = old + 1]
   /\ rb' = [rb EXCEPT ![r].touched = @ \cup {m}]
   /\ UNCHANGED <<hist, base, ckpt, owner, cpos, cheld, termT, gvtSeen, gvtCnt, gvtVals, finiLp, finiQ, votes,
-                 stopped, exited, hand, voted, maxDecl, mustVote, announced>>
+                 stopped, exited, hand, voted, maxDecl, mustVote, announced, net, rx, lastNm, early>>
 AntiLocalChecks(r, m, old) ==
   << <<Live(m), "C06", "anti-message for a buffer that was already released">>,
      <<rb[r].on /\ ~rb[r].restored, "C06", "cancellation outside a rollback">>,
@@ -227,12 +247,12 @@ Undo(r, m, old) ==
   /\ msg' = [msg EXCEPT ![m].flags = old - 2]
   /\ rb' = [rb EXCEPT ![r].touched = @ \cup {m}]
   /\ UNCHANGED <<hist, base, ckpt, owner, cpos, cheld, termT, gvtSeen, gvtCnt, gvtVals, finiLp, finiQ, votes,
-                 stopped, exited, hand, voted, maxDecl, mustVote, announced>>
+                 stopped, exited, hand, voted, maxDecl, mustVote, announced, net, rx, lastNm, early>>
 UndoChecks(r, m, old) ==
   << <<Live(m), "C06", "undone event buffer already released">>,
      <<rb[r].on /\ ~rb[r].restored, "C06", "event undone outside a rollback">>,
      <<rb[r].on => \E i \in IdxOf(rb[r].lp, "e", m) : i > rb[r].past, "C06", "undone event is not in the rolled back suffix">>,
-     <<HasProc(old), "C06", "undone event was not marked processed">> >>
+     <<Live(m) => HasProcM(m, old), "C06", "undone event was not marked processed">> >>
 UndoNeedsInsert(old) == ~HasAnti(old)
 
 (* model_allocator_checkpoint_restore (multi.c:181): checkpoint with reference `last' restored,
@@ -241,7 +261,7 @@ Restore(r, p, last, past) ==
   /\ hist' = [hist EXCEPT ![p] = SubSeq(@, 1, past)]
   /\ ckpt' = [ckpt EXCEPT ![p] = SelectSeq(@, LAMBDA c : c.ref <= last)]
   /\ rb' = [rb EXCEPT ![r].restored = TRUE]
-  /\ UNCHANGED <<msg, base, owner, cpos, cheld, termT, gvtSeen, gvtCnt, gvtVals, finiLp, finiQ, votes, stopped, exited, hand, voted, maxDecl, mustVote, announced>>
+  /\ UNCHANGED <<msg, base, owner, cpos, cheld, termT, gvtSeen, gvtCnt, gvtVals, finiLp, finiQ, votes, stopped, exited, hand, voted, maxDecl, mustVote, announced, net, rx, lastNm, early>>
 \* every undone entry must have been visited: sent messages cancelled, events unmarked
 RestoreChecks(r, p, last, past) ==
   << <<rb[r].on /\ rb[r].lp = p /\ rb[r].past = past, "C05", "restore does not belong to the rollback in progress">>,
@@ -258,7 +278,7 @@ RestoreChecks(r, p, last, past) ==
 RbEnd(r, p, g) ==
   /\ rb' = [rb EXCEPT ![r] = NoRb]
   /\ UNCHANGED <<msg, hist, base, ckpt, owner, cpos, cheld, termT, gvtSeen, gvtCnt, gvtVals, finiLp, finiQ, votes,
-                 stopped, exited, hand, voted, maxDecl, mustVote, announced>>
+                 stopped, exited, hand, voted, maxDecl, mustVote, announced, net, rx, lastNm, early>>
 RbEndChecks(r, p, g, size, calc) ==
   << <<rb[r].on /\ rb[r].restored /\ rb[r].lp = p, "C05", "rollback end without restore">>,
      <<g = GhostAt(p, Len(hist[p])), "C05", "state after rollback differs from the state after the last valid event">>,
@@ -269,22 +289,23 @@ Exec(r, p, m, g, pred) ==
   /\ hist' = [hist EXCEPT ![p] = Append(@, [k |-> "e", m |-> m, t |-> msg[m].t, ty |-> msg[m].ty, pid |-> msg[m].pid, g |-> g, pred |-> pred])]
   /\ hand' = [hand EXCEPT ![r] = 0]
   /\ UNCHANGED <<msg, base, ckpt, owner, rb, cpos, cheld, termT, gvtSeen, gvtCnt, gvtVals, finiLp, finiQ, votes, stopped,
-                 exited, voted, maxDecl, mustVote, announced>>
+                 exited, voted, maxDecl, mustVote, announced, net, rx, lastNm, early>>
 LastEvT(p) == IF EvIdx(p, Len(hist[p])) = {} THEN -1 ELSE hist[p][Max(EvIdx(p, Len(hist[p])))].t
 ExecChecks(r, p, m, size, calc) ==
   << <<Live(m), "C06", "executed a freed event">>,
      <<Live(m) => (m \in HandOf(r) /\ msg[m].lp = p), "C06", "executed an event that was not extracted for this LP">>,
-     <<Live(m) => HasProc(msg[m].flags), "C06", "executed an event without marking it processed">>,
+     <<Live(m) => HasProcM(m, msg[m].flags), "C06", "executed an event without marking it processed">>,
      <<owner[p] = r, "C14", "LP executed by a thread that does not own it">>,
      <<~rb[r].on, "C05", "forward execution inside a rollback">>,
      <<Live(m) => msg[m].t >= LastEvT(p), "C01", "event executed after a later event of the same LP without rollback">>,
+     <<Live(m) => ~\E am \in early[p] : Live(am) /\ SameRemote(m, am), "C06", "an event cancelled by an early remote anti-message was delivered">>,
      <<size = calc, "C11", "checkpoint size accounting differs from the allocator contents">> >>
 
 (* checkpoint_take (process.c:78) *)
 Ckpt(r, p, ref, size) ==
   /\ ckpt' = [ckpt EXCEPT ![p] = Append(@, [ref |-> ref, size |-> size])]
   /\ UNCHANGED <<msg, hist, base, owner, rb, cpos, cheld, termT, gvtSeen, gvtCnt, gvtVals, finiLp, finiQ, votes, stopped,
-                 exited, hand, voted, maxDecl, mustVote, announced>>
+                 exited, hand, voted, maxDecl, mustVote, announced, net, rx, lastNm, early>>
 CkptChecks(r, p, ref, size) ==
   << <<ref = Len(hist[p]), "C13", "checkpoint reference is not the current history length">>,
      <<ckpt[p] # <<>> => ckpt[p][Len(ckpt[p])].ref < ref, "C13", "checkpoint references do not increase">> >>
@@ -298,13 +319,14 @@ Fossil(r, p, g, n) ==
                                    [i \in 1..Len(keep) |-> [ref |-> keep[i].ref - n, size |-> keep[i].size]]]
   /\ cpos' = [cpos EXCEPT ![p] = @ + Len(CommittedOf(p, n))]
   /\ cheld' = [cheld EXCEPT ![p] = @ \/ \E i \in 1..n : hist[p][i].k = "e" /\ hist[p][i].pred]
-  /\ UNCHANGED <<msg, owner, rb, termT, gvtSeen, gvtCnt, gvtVals, finiLp, finiQ, votes, stopped, exited, hand, voted, maxDecl, mustVote, announced>>
+  /\ UNCHANGED <<msg, owner, rb, termT, gvtSeen, gvtCnt, gvtVals, finiLp, finiQ, votes, stopped, exited, hand, voted, maxDecl, mustVote, announced, net, rx, lastNm, early>>
 FossilChecks(r, p, g, n) ==
   << <<owner[p] = r, "C14", "fossil collection by a thread that does not own the LP">>,
      <<n <= Len(hist[p]), "C13", "released more than the history holds">>,
      <<g <= gvtSeen[r], "C04", "fossil collection used a value above the GVT told to this thread">>,
      <<\A i \in 1..n : hist[p][i].k = "e" => hist[p][i].t < g, "C03", "released an event that is not below the GVT">>,
      <<\A i \in 1..n : hist[p][i].k = "e" => hist[p][i].t < g, "C13", "reclaimed history at or above the GVT: a rollback to the committed frontier is no longer possible">>,
+     <<\A i \in 1..n : hist[p][i].k = "e" => hist[p][i].t < g, "C06", "the buffer of a processed event that can still be cancelled or rolled back (timestamp not below the GVT) was released">>,
      \* the kept history starts exactly at a kept checkpoint
      <<\E i \in 1..Len(ckpt[p]) : ckpt[p][i].ref = n, "C13", "kept history does not start at a kept checkpoint">>,
      <<~rb[r].on, "C13", "fossil collection inside a rollback">> >>
@@ -313,15 +335,17 @@ FossilChecks(r, p, g, n) ==
 Reachable(r, m) ==
   \/ msg[m].inq \in {"inbox", "heap"} /\ ~finiQ[msg[m].q]
   \/ \E q \in Threads \ {r} : hand[q] = m
+  \/ \E p \in LpSet : m \in early[p]
   \/ InHistE(m)
 Free(r, m) ==
   /\ msg' = Drop(msg, m)
   /\ hand' = [hand EXCEPT ![r] = IF @ = m THEN 0 ELSE @]
   /\ UNCHANGED <<hist, base, ckpt, owner, rb, cpos, cheld, termT, gvtSeen, gvtCnt, gvtVals, finiLp, finiQ, votes,
-                 stopped, exited, voted, maxDecl, mustVote, announced>>
+                 stopped, exited, voted, maxDecl, mustVote, announced, net, rx, lastNm, early>>
 FreeChecks(r, m) ==
   << <<Live(m), "C06", "message buffer released twice">>,
-     <<Live(m) => ~Reachable(r, m), "C06", "message buffer released while still reachable">> >>
+     <<Live(m) => ~Reachable(r, m), "C06", "message buffer released while still reachable">>,
+     <<(Live(m) /\ msg[m].inq = "atgvt" /\ ~finiQ[r]) => msg[m].t < gvtSeen[r], "C04", "buffer of a remotely cancelled message released before the GVT passed it">> >>
 
 \* the predicate of LP p held on a state that is committed with respect to GVT g
 HeldCommitted(p, g) ==
@@ -335,12 +359,15 @@ Gvt(r, g) ==
   \* C08: once every LP of the thread has its predicate true on a committed state, and no LP of the
   \* thread ever declared at or above g, the thread has to vote at this GVT (termination_on_gvt)
   /\ mustVote' = [mustVote EXCEPT ![r] = ~voted[r] /\ g > maxDecl[r] /\ \A p \in LpSet : owner[p] = r => HeldCommitted(p, g)]
-  /\ UNCHANGED <<msg, hist, base, ckpt, owner, rb, cpos, cheld, termT, finiLp, finiQ, votes, stopped, exited, hand, voted, maxDecl, announced>>
-PendingMin == IF {m \in Pending : msg[m].t >= 0} = {} THEN Inf ELSE Min({msg[m].t : m \in {x \in Pending : msg[x].t >= 0}})
+  /\ UNCHANGED <<msg, hist, base, ckpt, owner, rb, cpos, cheld, termT, finiLp, finiQ, votes, stopped, exited, hand, voted, maxDecl, announced, net, rx, lastNm, early>>
+PendingTimes == {msg[m].t : m \in {x \in Pending : msg[x].t >= 0}}
+                  \cup {net[n].t : n \in {x \in DOMAIN net : net[x].kind # "ctrl"}}
+                  \cup {rx[q].t : q \in {x \in Threads : rx[x].kind \in {"ev", "anti"}}}
+PendingMin == IF PendingTimes = {} THEN Inf ELSE Min(PendingTimes)
 GvtChecks(r, g) ==
   << <<g >= gvtSeen[r], "C04", "GVT decreased">>,
      <<gvtCnt[r] + 1 <= Len(gvtVals) => gvtVals[gvtCnt[r] + 1] = g, "C04", "threads were told different GVT values in the same round">>,
-     <<g <= PendingMin, "C04", "a message below the reported GVT is still queued, buffered or in hand">>,
+     <<g <= PendingMin, "C04", "a message below the reported GVT is still queued, buffered, in hand or in flight">>,
      <<\A q \in Threads : rb[q].on => \A i \in (rb[q].past + 1)..Len(hist[rb[q].lp]) : hist[rb[q].lp][i].t >= g,
        "C04", "a rollback in progress reaches below the reported GVT">> >>
 
@@ -349,24 +376,24 @@ TermLp(r, p, t, term) ==
   /\ termT' = [termT EXCEPT ![p] = IF term THEN t ELSE @]
   /\ maxDecl' = [maxDecl EXCEPT ![r] = IF term /\ t > @ THEN t ELSE @]
   /\ UNCHANGED <<msg, hist, base, ckpt, owner, rb, cpos, cheld, gvtSeen, gvtCnt, gvtVals, finiLp, finiQ, votes, stopped,
-                 exited, hand, voted, mustVote, announced>>
+                 exited, hand, voted, mustVote, announced, net, rx, lastNm, early>>
 TermInit(r, p, term) ==
   /\ cheld' = [cheld EXCEPT ![p] = term]
   /\ termT' = [termT EXCEPT ![p] = IF term THEN 0 ELSE -1]
-  /\ UNCHANGED <<msg, hist, base, ckpt, owner, rb, cpos, gvtSeen, gvtCnt, gvtVals, finiLp, finiQ, votes, stopped, exited, hand, voted, maxDecl, mustVote, announced>>
+  /\ UNCHANGED <<msg, hist, base, ckpt, owner, rb, cpos, gvtSeen, gvtCnt, gvtVals, finiLp, finiQ, votes, stopped, exited, hand, voted, maxDecl, mustVote, announced, net, rx, lastNm, early>>
 TermUndo(r, p, keep) ==
   /\ termT' = [termT EXCEPT ![p] = IF keep THEN @ ELSE -1]
   /\ UNCHANGED <<msg, hist, base, ckpt, owner, rb, cpos, cheld, gvtSeen, gvtCnt, gvtVals, finiLp, finiQ, votes, stopped,
-                 exited, hand, voted, maxDecl, mustVote, announced>>
+                 exited, hand, voted, maxDecl, mustVote, announced, net, rx, lastNm, early>>
 
 
 (* termination_on_gvt casts the vote of thread r with GVT g *)
 Vote(r, g) ==
-  /\ votes' = votes + 1
+  /\ votes' = gvtCnt[r]     \* GVT round in which the latest vote was cast
   /\ voted' = [voted EXCEPT ![r] = TRUE]
   /\ mustVote' = [mustVote EXCEPT ![r] = FALSE]
   /\ UNCHANGED <<msg, hist, base, ckpt, owner, rb, cpos, cheld, termT, gvtSeen, gvtCnt, gvtVals, finiLp, finiQ, stopped,
-                 exited, hand, maxDecl, announced>>
+                 exited, hand, maxDecl, announced, net, rx, lastNm, early>>
 VoteChecks(r, g, termTime) ==
   << <<g >= termTime \/ \A p \in LpSet : owner[p] = r => HeldCommitted(p, g),
        "C07", "thread voted to terminate although an LP's predicate has not held on a committed state">> >>
@@ -375,18 +402,18 @@ VoteChecks(r, g, termTime) ==
 TermCtrl ==
   /\ announced' = TRUE
   /\ UNCHANGED <<msg, hist, base, ckpt, owner, rb, cpos, cheld, termT, gvtSeen, gvtCnt, gvtVals, finiLp, finiQ, votes, stopped, exited,
-                 hand, voted, maxDecl, mustVote>>
+                 hand, voted, maxDecl, mustVote, net, rx, lastNm, early>>
 \* C08: once every worker thread has voted, the termination must be announced before the next GVT value
-Announced == <<(\A q \in Threads : voted[q]) => announced, "C08",
+Announced(r) == <<((\A q \in Threads : voted[q]) /\ gvtCnt[r] + 1 > votes) => announced, "C08",
                "every thread voted to terminate a full GVT round ago but the end of the run was never announced">>
 
 Stop ==
   /\ stopped' = TRUE
-  /\ UNCHANGED <<msg, hist, base, ckpt, owner, rb, cpos, cheld, termT, gvtSeen, gvtCnt, gvtVals, finiLp, finiQ, votes, exited, hand, voted, maxDecl, mustVote, announced>>
+  /\ UNCHANGED <<msg, hist, base, ckpt, owner, rb, cpos, cheld, termT, gvtSeen, gvtCnt, gvtVals, finiLp, finiQ, votes, exited, hand, voted, maxDecl, mustVote, announced, net, rx, lastNm, early>>
 
 LoopExit(r) ==
   /\ exited' = [exited EXCEPT ![r] = TRUE]
-  /\ UNCHANGED <<msg, hist, base, ckpt, owner, rb, cpos, cheld, termT, gvtSeen, gvtCnt, gvtVals, finiLp, finiQ, votes, stopped, hand, voted, maxDecl, mustVote, announced>>
+  /\ UNCHANGED <<msg, hist, base, ckpt, owner, rb, cpos, cheld, termT, gvtSeen, gvtCnt, gvtVals, finiLp, finiQ, votes, stopped, hand, voted, maxDecl, mustVote, announced, net, rx, lastNm, early>>
 NoPendingVote(r) == <<~mustVote[r], "C08", "every LP of the thread has its predicate true on a committed state but the thread did not vote to terminate">>
 LastGvt == IF gvtVals = <<>> THEN 0 ELSE gvtVals[Len(gvtVals)]
 LoopExitChecks(r, termTime) ==
@@ -396,17 +423,101 @@ LoopExitChecks(r, termTime) ==
 
 QueueFini(r) ==
   /\ finiQ' = [finiQ EXCEPT ![r] = TRUE]
-  /\ UNCHANGED <<msg, hist, base, ckpt, owner, rb, cpos, cheld, termT, gvtSeen, gvtCnt, gvtVals, finiLp, votes, stopped, exited, hand, voted, maxDecl, mustVote, announced>>
+  /\ UNCHANGED <<msg, hist, base, ckpt, owner, rb, cpos, cheld, termT, gvtSeen, gvtCnt, gvtVals, finiLp, votes, stopped, exited, hand, voted, maxDecl, mustVote, announced, net, rx, lastNm, early>>
 \* both flushing GVT rounds of gvt_msg_drain have transferred every inbox into the private heap
 QueueFiniChecks(r) ==
   << <<InboxOf(r) = {}, "C11", "inbox not empty at queue teardown (msg_queue_fini walks a freed list)">> >>
 
 LpFini(r, p) ==
   /\ finiLp' = [finiLp EXCEPT ![p] = TRUE]
-  /\ UNCHANGED <<msg, hist, base, ckpt, owner, rb, cpos, cheld, termT, gvtSeen, gvtCnt, gvtVals, finiQ, votes, stopped, exited, hand, voted, maxDecl, mustVote, announced>>
+  /\ UNCHANGED <<msg, hist, base, ckpt, owner, rb, cpos, cheld, termT, gvtSeen, gvtCnt, gvtVals, finiQ, votes, stopped, exited, hand, voted, maxDecl, mustVote, announced, net, rx, lastNm, early>>
 LpFiniChecks(r, p) ==
   << <<~finiLp[p], "C08", "LP_FINI invoked twice for an LP">>,
      <<owner[p] = r, "C14", "LP finalised by a thread that does not own it">>,
      <<\A q \in Threads : exited[q], "C08", "LP finalised while a worker is still in the main loop">> >>
+
+----------------------------------------------------------------------------
+(* Multi-rank part (src/distributed/mpi.c, gvt.h stamping, process.c remote anti-messages) *)
+
+(* MPI_Isend: a message enters the network *)
+NetSend(r, nm, x) ==
+  /\ net' = Put(net, nm, x)
+  /\ lastNm' = [lastNm EXCEPT ![r] = [nm |-> nm, kind |-> x.kind, id |-> x.id, sq |-> x.sq]]
+  /\ UNCHANGED <<msg, hist, base, ckpt, owner, rb, cpos, cheld, termT, gvtSeen, gvtCnt, gvtVals, finiLp, finiQ, votes, stopped, exited,
+                 hand, voted, maxDecl, mustVote, announced, rx, early>>
+NetSendChecks(r, nm, x) ==
+  << <<x.kind = "ctrl" \/ x.t >= gvtSeen[r], "C04", "message sent to another rank below the GVT known to its sender">>,
+     <<~(rb[r].on /\ rb[r].restored), "C05", "event emitted to another rank during silent re-execution">> >>
+
+(* MPI_Mrecv: the message leaves the network and is in the hands of thread r until it is inserted *)
+NetRecv(r, nm) ==
+  /\ net' = Drop(net, nm)
+  /\ rx' = [rx EXCEPT ![r] = IF net[nm].kind = "ctrl" THEN NoRx ELSE [net[nm] EXCEPT !.nm = nm]]
+  /\ UNCHANGED <<msg, hist, base, ckpt, owner, rb, cpos, cheld, termT, gvtSeen, gvtCnt, gvtVals, finiLp, finiQ, votes, stopped, exited,
+                 hand, voted, maxDecl, mustVote, announced, lastNm, early>>
+NetRecvChecks(r, nm) ==
+  << <<nm \in DOMAIN net, "C06", "a network message was delivered twice or never sent">>,
+     <<rx[r].kind = "none", "C06", "a received message was dropped before being inserted">> >>
+
+(* ScheduleNewEvent, remote branch: the sender keeps its buffer as a remote mark in the history *)
+SendRemote(r, p, m, c) ==
+  /\ hist' = [hist EXCEPT ![p] = Append(@, [k |-> "r", m |-> m, t |-> c.t, ty |-> c.ty, pid |-> c.pid, g |-> NoGhost, pred |-> FALSE])]
+  /\ msg' = [msg EXCEPT ![m] = [@ EXCEPT !.lp = c.lp, !.t = c.t, !.ty = c.ty, !.pid = c.pid, !.inq = "none", !.src = p, !.rem = TRUE,
+                                           !.nm = lastNm[r].nm, !.sq = lastNm[r].sq, !.flags = lastNm[r].id]]
+  /\ UNCHANGED <<base, ckpt, owner, rb, cpos, cheld, termT, gvtSeen, gvtCnt, gvtVals, finiLp, finiQ, votes, stopped, exited,
+                 hand, voted, maxDecl, mustVote, announced, net, rx, lastNm, early>>
+SendRemoteChecks(r, p, m, c) ==
+  << <<Live(m) /\ msg[m].inq = "new", "C06", "remote send of a buffer that is not fresh">>,
+     <<lastNm[r].kind = "ev", "C02", "no event was put on the network for a remote send">>,
+     <<owner[p] \in {-1, r}, "C14", "LP runs on a thread that does not own it">>,
+     <<owner[c.lp] = -1 \/ owner[c.lp] \div 8 # r \div 8, "C14", "event for an LP of this rank was routed to another rank">> >>
+
+(* send_anti_messages, remote branch: an anti-message enters the network, the buffer is released at GVT *)
+AntiRemote(r, m) ==
+  /\ rb' = [rb EXCEPT ![r].touched = @ \cup {m}]
+  /\ msg' = [msg EXCEPT ![m].inq = "atgvt"]
+  /\ UNCHANGED <<hist, base, ckpt, owner, cpos, cheld, termT, gvtSeen, gvtCnt, gvtVals, finiLp, finiQ, votes, stopped, exited,
+                 hand, voted, maxDecl, mustVote, announced, net, rx, lastNm, early>>
+AntiRemoteChecks(r, m) ==
+  << <<Live(m) /\ msg[m].rem, "C06", "remote anti-message for a buffer that is not a remote send">>,
+     <<rb[r].on /\ ~rb[r].restored, "C06", "remote cancellation outside a rollback">>,
+     <<rb[r].on => \E i \in IdxOf(rb[r].lp, "r", m) : i > rb[r].past, "C06", "cancelled a remote message not sent by an undone event">>,
+     <<Live(m) => msg[m].inq # "atgvt", "C06", "remote message cancelled twice">>,
+     <<lastNm[r].kind = "anti" /\ (Live(m) => lastNm[r].sq = msg[m].sq /\ lastNm[r].id - Low(lastNm[r].id) = msg[m].flags - Low(msg[m].flags)),
+       "C06", "the anti-message put on the network does not identify the undone remote send">> >>
+
+(* handle_remote_anti_msg: the cancelled event is not in the history yet: park the anti-message *)
+EarlyStore(r, p, am) ==
+  /\ early' = [early EXCEPT ![p] = @ \cup {am}]
+  /\ hand' = [hand EXCEPT ![r] = 0]
+  /\ UNCHANGED <<msg, hist, base, ckpt, owner, rb, cpos, cheld, termT, gvtSeen, gvtCnt, gvtVals, finiLp, finiQ, votes, stopped, exited,
+                 voted, maxDecl, mustVote, announced, net, rx, lastNm>>
+EarlyStoreChecks(r, p, am) ==
+  << <<Live(am) /\ hand[r] = am /\ msg[am].lp = p, "C06", "parked an anti-message that was not just extracted for this LP">>,
+     <<Live(am) => ~\E i \in 1..Len(hist[p]) : hist[p][i].k = "e" /\ Live(hist[p][i].m) /\ SameRemote(hist[p][i].m, am),
+       "C06", "anti-message parked as early although the event it cancels has been processed">> >>
+
+(* check_early_anti_messages: the event arrives after its anti-message: both are annihilated *)
+EarlyMatch(r, p, m, am) ==
+  /\ early' = [early EXCEPT ![p] = @ \ {am}]
+  /\ UNCHANGED <<msg, hist, base, ckpt, owner, rb, cpos, cheld, termT, gvtSeen, gvtCnt, gvtVals, finiLp, finiQ, votes, stopped, exited,
+                 hand, voted, maxDecl, mustVote, announced, net, rx, lastNm>>
+EarlyMatchChecks(r, p, m, am) ==
+  << <<am \in early[p], "C06", "matched an anti-message that was not parked at this LP">>,
+     <<Live(m) /\ Live(am) /\ hand[r] = m, "C06", "early annihilation of buffers that are not live / not in hand">>,
+     <<(Live(m) /\ Live(am)) => SameRemote(m, am), "C06", "an event was annihilated by the anti-message of a different event">> >>
+
+(* handle_remote_anti_msg: the cancelled event was processed: roll back to before it *)
+RAntiMatch(r, p, m, am, past) ==
+  /\ msg' = [msg EXCEPT ![m].flags = @ + 1]
+  /\ UNCHANGED <<hist, base, ckpt, owner, rb, cpos, cheld, termT, gvtSeen, gvtCnt, gvtVals, finiLp, finiQ, votes, stopped, exited,
+                 hand, voted, maxDecl, mustVote, announced, net, rx, lastNm, early>>
+RAntiMatchChecks(r, p, m, am, past) ==
+  << <<Live(m) /\ Live(am) /\ hand[r] = am, "C06", "remote annihilation of buffers that are not live / not in hand">>,
+     <<(Live(m) /\ Live(am)) => SameRemote(m, am), "C06", "an event was annihilated by the anti-message of a different event">>,
+     <<\E i \in IdxOf(p, "e", m) : i > past, "C06", "the rollback for a remote anti-message does not undo the cancelled event">> >>
+
+FreeAtGvt(r, m) == UNCHANGED vars
+FreeAtGvtChecks(r, m) == << <<Live(m) /\ msg[m].inq = "atgvt", "C06", "deferred release of a buffer that was not cancelled remotely">> >>
 
 =============================================================================
